@@ -66,10 +66,9 @@ impl BitOrAssign for BoxedUint {
 }
 
 impl BitOrAssign<&BoxedUint> for BoxedUint {
+    #[allow(clippy::assign_op_pattern)]
     fn bitor_assign(&mut self, other: &Self) {
-        for (a, b) in self.limbs.iter_mut().zip(other.limbs.iter()) {
-            *a |= *b;
-        }
+        *self = BoxedUint::bitor(self, other);
     }
 }
 
